@@ -617,7 +617,16 @@ void run_bake(uint64_t seed, const sk_mask* mask, sk_result* out, int alloc_mode
 	setup_party(0, ts[0], 1), setup_party(1, ts[1], 1);
 	CHS[0].field_len = c->l / 4;
 	CHS[0].curve_p = c->params->p;
+	CHS[0].curve_yG = c->params->yG;
 	CHS[0].own_point[0] = c->pub[0], CHS[0].own_point[1] = c->pub[1];
+	/* where the curve point sits in each message: dir 0 = to A (M1, M3), dir 1 = to B (M2, M4) */
+	switch (c->proto)
+	{
+	case P_BMQV: CHS[0].point_off[0][0] = 0, CHS[0].point_off[1][0] = 0; break;
+	case P_BSTS: CHS[0].point_off[0][0] = 0, CHS[0].point_off[1][0] = 0; break;
+	case P_BPACE: CHS[0].point_off[1][0] = (int)(c->l / 8), CHS[0].point_off[0][1] = 0, CHS[0].xonly = 1; break;
+	default: CHS[0].point_off[0][0] = 0, CHS[0].xonly = 1; break;
+	}
 	if (c->proto == P_BSTS)
 	{
 		/* the Run drivers reassemble M2 and M3; so do the step-driver hosts */
